@@ -60,12 +60,16 @@ def gen_for(pid, rng, tier):
         spec["monitor_ops"] = True
         if rng.random() < 0.15:
             spec["evalmon"] = False
+        if rng.random() < 0.2:
+            spec["stepmon"] = rng.choice([2.0, 0.5, 4.0, -1.0, -2.0])      # a step monitor with a cost multiplier k
     else:
         spec = solvergen.gen_spec(rng, maxdim=maxdim, nsteps=nsteps, flavour=rng.choice(["ops", "ops", "steps", "solve"]))
         if rng.random() < 0.5:
             spec["limits"] = (rng.choice([None, 0, 1, 2, 3, 5]), rng.choice([None, 0, 1, 5, 20, 50]))
         if rng.random() < 0.3:
             spec["evalmon"] = False         # the default Null evaluation monitor
+        if rng.random() < 0.15:
+            spec["stepmon"] = rng.choice([2.0, 0.5, -1.0])
     if spec.get("flavour") == "ops" and not spec.get("penalty_switch"):
         # the configuration may have been completed above: regenerate the op sequence so that the hypotheses of C03
         # (constraints compatible with the box in force) hold along it
